@@ -105,11 +105,48 @@ def run(F, tier, res):
         callers = [(q, j) for q in F.fn_bodies for j, cc in F.calls(q) if callee_of(cc) == fn or (cc.get('resolved') or '') == fn]
         return bool(callers) and all(site_ok(q, j, depth + 1) for (q, j) in callers)
 
-    n = ok = 0
+    # composition points: a call that is handed the two names and the two events (the formatter of the header text), wherever it sits;
+    # or, for a composer that formats inline, the calls of that composer
+    NAMES4 = {'minus_file', 'plus_file', 'minus_file_event', 'plus_file_event'}
+    argsites = []
     for p in sorted(F.fn_bodies):
+        mir = F.bodies[p]['mir']
+        if not (mir['arg_count'] >= 1 and 'StateMachine' in mir['locals'][1]):
+            continue
         for i, c in F.calls(p):
-            if callee_of(c) not in composers:
-                continue
+            got = set()
+            for a in c['args']:
+                for r in F.trace(p, a):
+                    if r[0] == 'param' and r[1] == 1 and r[2]:
+                        got |= NAMES4 & set(r[2])
+            if got == NAMES4:
+                argsites.append((p, i, c))
+    argfns = {p for (p, _, _) in argsites}
+    inline_composers = [m for m in composers if m not in argfns and not (set(F.reachable_from([m])) & argfns)]
+    sites = list(argsites) + [(p, i, c) for p in sorted(F.fn_bodies) for i, c in F.calls(p) if callee_of(c) in inline_composers]
+
+    def _marks(fn):
+        from .c10 import _must_assign
+        marks = [bb for (bb, chain, kind, payload) in Ru.field_writes(F, fn, None, HANDLED) if kind.startswith('mutcall:clone_from') or kind == 'assign']
+        # ... or through a setter method that records the pair on every one of its paths
+        marks += [j for j, cj in F.calls(fn) if _must_assign(F, callee_of(cj) if callee_of(cj) in F.fn_bodies else (cj.get('resolved') or ''), HANDLED, 0)]
+        return marks
+
+    def mark_ok(fn, start, depth=0):
+        """handled := current on every path from `start` to the function's return; a helper that composes and writes without marking
+        is judged at each of its call sites"""
+        errexits = [bb for bb, cc in F.calls(fn) if 'from_residual' in callee_of(cc)]
+        if start is None:
+            return True
+        if not Ru.must_pass(F, fn, start, set(_marks(fn)) | set(errexits)):
+            return True
+        if depth >= 2 or _marks(fn):
+            return False
+        callers = [(q, cc) for q in F.fn_bodies for j, cc in F.calls(q) if callee_of(cc) == fn or (cc.get('resolved') or '') == fn]
+        return bool(callers) and all(mark_ok(q, cc['target'], depth + 1) for (q, cc) in callers)
+
+    n = ok = 0
+    for (p, i, c) in sites:
             n += 1
             good = True
             # (a) guarded by the differ edge (here, or at every call site of this function when it is a write-and-mark helper)
@@ -127,19 +164,13 @@ def run(F, tier, res):
                 res.violate('PAIRING', 'fn=%s;guard' % p, 'the file header is composed and written without checking that it has not been written '
                             'for this file pair already: a renamed-with-changes file gets two headers', where=F.span_of_call(c))
             # (b) followed by handled := current
-            marks = [bb for (bb, chain, kind, payload) in Ru.field_writes(F, p, None, HANDLED) if kind.startswith('mutcall:clone_from') or kind == 'assign']
-            # ... or through a setter method that records the pair on every one of its paths
-            from .c10 import _must_assign
-            marks += [j for j, cj in F.calls(p) if _must_assign(F, callee_of(cj) if callee_of(cj) in F.fn_bodies else (cj.get('resolved') or ''), HANDLED, 0)]
-            errexits = [bb for bb, cc in F.calls(p) if 'from_residual' in callee_of(cc)]
-            miss = Ru.must_pass(F, p, c['target'], set(marks) | set(errexits))
-            if miss:
+            if not mark_ok(p, c['target']):
                 good = False
                 res.violate('PAIRING', 'fn=%s;mark' % p, 'after writing the file header the pair is not recorded as handled on every path: the header is written again later',
                             where=F.span_of_call(c))
             if good:
                 ok += 1
-    res.rule('C14.PAIRING', n, 1, 'call sites of the file-header composer %s: guarded by handled != current, followed by handled := current' % [c.split('::')[-1] for c in composers], discharged=ok)
+    res.rule('C14.PAIRING', n, 1, 'composition points of the file header (in %s): guarded by handled != current, followed by handled := current' % sorted({p_.split('::')[-1] for (p_, _, _) in sites}), discharged=ok)
     # REARM: a write to current_file_pair re-arms the `handled != current` test. Outside the per-section reset (which also clears
     # `handled`), every such write must be followed, on every path to the function's return, by the header decision itself (the
     # comparison, or a call into the generic header writer's decision function); otherwise a header already written for this
@@ -244,5 +275,38 @@ def run(F, tier, res):
                         res.violate('RIGHT-FILE', 'fn=%s' % p, 'the file named in the hunk header is not minus_file exactly when plus_file is /dev/null (got %s on the /dev/null edge, %s otherwise)' % (sorted(a_), sorted(b_)),
                                     where=F.bodies[p]['mir']['span']['at'])
     res.rule('C14.RIGHT-FILE', n4, 1, 'selections between &minus_file and &plus_file on plus_file == "/dev/null"', discharged=ok4)
+    # CLASSIFY-RAW: the function that words the header (added / removed / renamed / copied / modified) classifies the section by
+    # comparing the two paths as they were read: with "/dev/null" and with each other. The displayed form of a path (after
+    # --file-transformation, wrapped in a hyperlink, relativised) must not be what is compared.
+    n5 = ok5 = 0
+    from ..facts import PROV_PRESERVING_SUFFIXES
+    for q in sorted(F.fn_bodies):
+        mir = F.bodies[q]['mir']
+        tys = [mir['locals'][i] for i in range(1, mir['arg_count'] + 1)]
+        if not (sum(1 for t_ in tys if t_ == '&str') >= 2 and sum(1 for t_ in tys if t_.endswith('FileEvent')) >= 2 and 'String' in mir['locals'][0]):
+            continue
+        spar = [i + 1 for i, t_ in enumerate(tys) if t_ == '&str']
+        for i, c in F.calls(q):
+            r = callee_of(c)
+            if not r.endswith(('::eq', '::ne')) or len(c['args']) < 2:
+                continue
+            lits = [v[1] for a in c['args'] for v in F.operand_literals(q, a) if v[0] == 'str']
+            sides = [F.trace(q, a) for a in c['args'][:2]]
+            of_paths = [any(x[0] == 'param' and x[1] in spar for x in rs) for rs in sides]
+            derived = [[x for x in rs if x[0] == 'call' and not x[1].endswith(PROV_PRESERVING_SUFFIXES)] for rs in sides]
+            is_null_test = '/dev/null' in lits
+            if not (is_null_test or all(of_paths) or (any(derived[0]) and any(derived[1]))):
+                continue
+            # is this a test of the file paths? the /dev/null test, or path against path (raw or derived)
+            if not is_null_test and not (all(of_paths) or all(any(x[1] in F.fn_bodies or '{closure' in x[1] for x in d) for d in derived)):
+                continue
+            n5 += 1
+            bad = [x[1].split('::')[-1] for d in derived for x in d]
+            if bad:
+                res.violate('CLASSIFY-RAW', 'fn=%s;via=%s' % (q, bad[0]), 'the kind of change (added / removed / renamed / modified) is decided by comparing a path that has gone through %s, '
+                            'not the path as read: with --hyperlinks or --file-transformation a /dev/null side or a rename is no longer recognised' % bad[0], where=F.span_of_call(c))
+            else:
+                ok5 += 1
+    res.rule('C14.CLASSIFY-RAW', n5, 2, 'path comparisons (with "/dev/null", old against new) in the function wording the file header: operands are the paths as read', discharged=ok5)
     E.evidence(res, R)
     return res
